@@ -67,7 +67,7 @@ func buildSecurityCaller(xfccHeader string) (*security.Caller, error) {
 	for _, cc := range clientCerts {
 		ids = append(ids, cc.URI...)
 		ids = append(ids, cc.DNS...)
-		if cc.Subject != nil {
+		if cc.Subject != nil && cc.Subject.CommonName != "" {
 			ids = append(ids, cc.Subject.CommonName)
 		}
 	}
